@@ -242,3 +242,266 @@ if __name__ == '__main__':
     F = {'Float_C_Float(self)': 0, 'c_float(obj)': 1}
     print(translate('{ double c = Float_C_Float(self) - c_float(obj); return c > 0 ? 1 : c < 0 ? -1 : 0; }', F))
     print(translate('{ return cmp(self, obj) isnt 0; }', {'cmp(self, obj)': 0}, zero_var=1))
+
+
+# ------------------------------------------------------------------------------------------------
+# cmp() of Cmp.c: a decision procedure over four facts.  It is executed symbolically for every
+# assignment of the facts, following if / else / return / throw, local aliases and one or two levels
+# of helper functions of the same file; the result is the outcome TABLE (data for Generated.v).
+#   facts:    hc = instance(self, Cmp) is not NULL      hm = its cmp member is not NULL
+#             t  = type_of(self) is type_of(obj)        s  = size(type_of(self)) is not 0
+#   outcomes: 0 call the instance   1 memcmp(self, obj, size(type_of(self)))   2 throw TypeError   3 NULL dereference
+STOK = re.compile(r'\s*("(?:[^"\\]|\\.)*"|->|<=|>=|==|!=|&&|\|\||[A-Za-z_][A-Za-z0-9_]*|\d+|[-+*/<>!?:(),;{}=.&|\[\]%$])')
+
+
+def stokens(s):
+    out, i = [], 0
+    s = s.strip()
+    while i < len(s):
+        m = STOK.match(s, i)
+        if not m:
+            raise Untranslatable('token at %r' % s[i:i + 12])
+        out.append(m.group(1)); i = m.end()
+    return out
+
+
+class Crash(Exception):
+    pass
+
+
+class Dispatch:
+    def __init__(self, file_src, func_body):
+        self.src, self.func_body = file_src, func_body
+
+    def run(self, facts):
+        body = self.func_body(self.src, r'\bint\s+cmp\s*\(\s*var\s+self\s*,\s*var\s+obj\s*\)\s*\{')
+        if body is None:
+            raise Untranslatable('cmp not found')
+        try:
+            return self.exec_body(stokens(body), facts, 0)
+        except Crash:
+            return 3
+
+    # ---- statements
+    def exec_body(self, t, facts, depth):
+        self.alias = dict(getattr(self, 'alias', {})) if depth else {}
+        pos = [1]                                  # after '{'
+        r = self.exec_stmts(t, pos, facts, depth)
+        if r is None:
+            raise Untranslatable('path without return')
+        return r
+
+    def exec_stmts(self, t, pos, facts, depth):
+        while t[pos[0]] != '}':
+            r = self.exec_stmt(t, pos, facts, depth, live=True)
+            if r is not None:
+                # skip the rest of the block
+                d = 0
+                while not (t[pos[0]] == '}' and d == 0):
+                    d += (t[pos[0]] == '{') - (t[pos[0]] == '}')
+                    pos[0] += 1
+                return r
+        return None
+
+    def skip_stmt(self, t, pos):
+        if t[pos[0]] == '{':
+            d = 0
+            while True:
+                d += (t[pos[0]] == '{') - (t[pos[0]] == '}')
+                pos[0] += 1
+                if d == 0:
+                    return
+        if t[pos[0]] == 'if':
+            pos[0] += 1
+            self.paren(t, pos)
+            self.skip_stmt(t, pos)
+            if t[pos[0]] == 'else':
+                pos[0] += 1; self.skip_stmt(t, pos)
+            return
+        while t[pos[0]] != ';':
+            if t[pos[0]] == '(':
+                self.paren(t, pos)
+            else:
+                pos[0] += 1
+        pos[0] += 1
+
+    def paren(self, t, pos):
+        """returns the tokens inside a balanced (...) starting at pos"""
+        assert t[pos[0]] == '('
+        d, b = 0, pos[0]
+        while True:
+            d += (t[pos[0]] == '(') - (t[pos[0]] == ')')
+            pos[0] += 1
+            if d == 0:
+                return t[b + 1:pos[0] - 1]
+
+    def block(self, t, pos, facts, depth, live):
+        if not live:
+            self.skip_stmt(t, pos); return None
+        if t[pos[0]] == '{':
+            pos[0] += 1
+            r = self.exec_stmts(t, pos, facts, depth)
+            pos[0] += 1                              # '}'
+            return r
+        return self.exec_stmt(t, pos, facts, depth, True)
+
+    def exec_stmt(self, t, pos, facts, depth, live):
+        tok = t[pos[0]]
+        if tok == ';':
+            pos[0] += 1; return None
+        if tok == 'if':
+            pos[0] += 1
+            c = self.truth(self.paren(t, pos), facts)
+            r = self.block(t, pos, facts, depth, c)
+            if t[pos[0]] == 'else':
+                pos[0] += 1
+                r2 = self.block(t, pos, facts, depth, not c)
+                r = r if c else r2
+            return r
+        if tok == 'return' or tok == 'throw':
+            b = pos[0]
+            self.skip_stmt(t, pos)
+            e = t[b + (1 if tok == 'return' else 0):pos[0] - 1]
+            return self.outcome(e, facts, depth)
+        # declaration with initialiser:  <type tokens> name = expr ;
+        b = pos[0]
+        self.skip_stmt(t, pos)
+        st = t[b:pos[0] - 1]
+        if '=' in st:
+            k = st.index('=')
+            self.alias[st[k - 1]] = st[k + 1:]
+            return None
+        raise Untranslatable('statement %r' % st[:8])
+
+    # ---- expressions
+    def expand(self, e, n=0):
+        out = []
+        for i, x in enumerate(e):
+            if x in self.alias and n < 8 and not (i > 0 and e[i - 1] in ('->', '.')):
+                out += ['('] + self.expand(self.alias[x], n + 1) + [')']
+            else:
+                out.append(x)
+        return out
+
+    def outcome(self, e, facts, depth):
+        e = self.strip(self.expand(e))
+        s = ''.join(e)
+        if s.startswith('throw(TypeError'):
+            return 2
+        m = re.fullmatch(r'\(?instance\(self,Cmp\)\)?->cmp\(self,obj\)', s)
+        if m:
+            if not facts['hc'] or not facts['hm']:
+                raise Crash()
+            return 0
+        m = re.fullmatch(r'memcmp\(self,obj,(.*)\)', s)
+        if m:
+            if ''.join(self.strip(stokens(m.group(1)))) != 'size(type_of(self))':
+                raise Untranslatable('memcmp length ' + m.group(1))
+            return 1
+        m = re.fullmatch(r'([A-Za-z_][A-Za-z0-9_]*)\(self,obj\)', s)
+        if m and depth < 2:
+            hb = self.func_body(self.src, r'\bint\s+%s\s*\(\s*var\s+self\s*,\s*var\s+obj\s*\)\s*\{' % m.group(1))
+            if hb is None:
+                raise Untranslatable('helper ' + m.group(1))
+            save = self.alias
+            try:
+                return self.exec_body(stokens(hb), facts, depth + 1)
+            finally:
+                self.alias = save
+        raise Untranslatable('return ' + s[:40])
+
+    def strip(self, e):
+        """remove redundant outer parentheses and parentheses around single alias expansions"""
+        e = list(e)
+        changed = True
+        while changed:
+            changed = False
+            if len(e) >= 2 and e[0] == '(' and self.match(e, 0) == len(e) - 1:
+                e = e[1:-1]; changed = True
+        # inner: "( X )" where X has no top-level operator
+        out, i = [], 0
+        while i < len(e):
+            if e[i] == '(' and (i == 0 or not re.fullmatch(r'[A-Za-z_]\w*', e[i - 1])):
+                j = self.match(e, i)
+                inner = self.strip(e[i + 1:j])
+                if not any(x in ('and', 'or', 'not', 'is', 'isnt', '&&', '||', '!', '==', '!=', '?', '<', '>', '-', '+') for x in self.top(inner)):
+                    out += inner; i = j + 1; continue
+                out += ['('] + inner + [')']; i = j + 1; continue
+            out.append(e[i]); i += 1
+        return out
+
+    def match(self, e, i):
+        d = 0
+        for j in range(i, len(e)):
+            d += (e[j] == '(') - (e[j] == ')')
+            if d == 0:
+                return j
+        raise Untranslatable('parenthesis')
+
+    def top(self, e):
+        d, out = 0, []
+        for x in e:
+            if x == '(': d += 1
+            elif x == ')': d -= 1
+            elif d == 0: out.append(x)
+        return out
+
+    def split_top(self, e, ops):
+        d, parts, cur, used = 0, [], [], []
+        for x in e:
+            if x == '(': d += 1
+            if x == ')': d -= 1
+            if d == 0 and x in ops:
+                parts.append(cur); cur = []; used.append(x)
+            else:
+                cur.append(x)
+        parts.append(cur)
+        return parts, used
+
+    def truth(self, e, facts):
+        e = self.strip(self.expand(e))
+        parts, _ = self.split_top(e, ('or', '||'))
+        if len(parts) > 1:
+            return any(self.truth_lazy(p, facts) for p in parts)      # any() short-circuits over the generator
+        parts, _ = self.split_top(e, ('and', '&&'))
+        if len(parts) > 1:
+            return all(self.truth_lazy(p, facts) for p in parts)
+        if e and e[0] in ('not', '!'):
+            return not self.truth(e[1:], facts)
+        parts, used = self.split_top(e, ('is', 'isnt', '==', '!='))
+        if len(parts) == 2:
+            a, b = ''.join(self.strip(parts[0])), ''.join(self.strip(parts[1]))
+            neg = used[0] in ('isnt', '!=')
+            if {a, b} == {'type_of(self)', 'type_of(obj)'}:
+                return facts['t'] != neg
+            if b in ('NULL', '0'):
+                return (not self.value(a, facts)) != neg
+            if a in ('NULL', '0'):
+                return (not self.value(b, facts)) != neg
+            raise Untranslatable('comparison %s / %s' % (a, b))
+        return self.value(''.join(e), facts)
+
+    def truth_lazy(self, p, facts):
+        return self.truth(p, facts)
+
+    def value(self, s, facts):
+        if s == 'instance(self,Cmp)':
+            return facts['hc']
+        if re.fullmatch(r'\(?instance\(self,Cmp\)\)?->cmp', s):
+            if not facts['hc']:
+                raise Crash()
+            return facts['hm']
+        if s == 'size(type_of(self))':
+            return facts['s']
+        raise Untranslatable('condition ' + s[:40])
+
+
+def dispatch_table(file_src, func_body):
+    d = Dispatch(file_src, func_body)
+    rows = []
+    for hc in (False, True):
+        for hm in (False, True):
+            for t in (False, True):
+                for s in (False, True):
+                    rows.append((hc, hm, t, s, d.run({'hc': hc, 'hm': hm, 't': t, 's': s})))
+    return rows
